@@ -71,9 +71,24 @@ Definition pBody : P body :=
   | _ => pfail
   end.
 
+(* the function element and the read restriction follow the body; older recordings end with the body *)
+Definition pTail : P (N * N) :=
+  fun l => match l with
+           | [] => Some ((0%N, 0%N), [])
+           | _ => (do f <- pN;; do x <- pN;; pret (f, x)) l
+           end.
+
 Definition pDgram : P dgram :=
-  do s <- pFaddr;; do d <- pFaddr;; do c <- pN;; do r <- pOptN;; do a <- pB;; do b <- pBody;;
-  pret {| d_src := s; d_dst := d; d_ctr := c; d_ref := r; d_ack := a; d_body := b |}.
+  do s <- pFaddr;; do d <- pFaddr;; do c <- pN;; do r <- pOptN;; do a <- pB;; do b <- pBody;; do t <- pTail;;
+  pret {| d_src := s; d_dst := d; d_ctr := c; d_ref := r; d_ack := a; d_body := b; d_fct := fst t; d_sel := snd t |}.
+
+(* a length-prefixed sub-list parsed completely by p *)
+Definition pSub {A} (p : P A) : P A :=
+  do n <- pZ;;
+  fun l => match p (firstn (Z.to_nat n) l) with
+           | Some (a, []) => Some (a, skipn (Z.to_nat n) l)
+           | _ => None
+           end.
 
 Definition pOp : P op :=
   do code <- pZ;;
@@ -89,6 +104,7 @@ Definition pOp : P op :=
   | 9 => do f <- pN;; do c <- pN;; do cb <- pN;; do e <- pEaddr;; pret (AddRespCb e f c cb)
   | 10 => do f <- pN;; do cb <- pN;; do e <- pEaddr;; pret (AddResultCb e f cb)
   | 11 => do t <- pN;; pret (QFactory t)
+  | 13 => do l <- pList (do p <- pN;; do d <- pSub pDgram;; pret (p, d));; pret (SeqArrive l)
   | 12 => do late <- pOptN;; do pf <- pN;; do ps <- pList pN;; do d <- pDgram;; pret (ParArrive ps d late pf)
   | _ => pfail
   end.
